@@ -86,7 +86,7 @@ static const uint32_t GEN_LENS[] = {1,    2,    3,    7,    8,    9,    15,   16
                                     63,   64,   65,   127,  128,  129,  240,  241,   255,   256,   257,   383,
                                     384,  385,  511,  512,  513,  1000, 2287, 2288,  4095,  4096,  4097};
 #define GEN_NLENS (sizeof(GEN_LENS) / sizeof(GEN_LENS[0]))
-static const uint32_t GEN_BIGLENS[] = {9999, 10000, 10001, 20000, 65535, 65536, 65537, 67823, 67824};
+static const uint32_t GEN_BIGLENS[] = {8191, 8192, 8193, 9999, 10000, 10001, 12288, 16384, 20000, 32768, 65535, 65536, 65537, 67823, 67824, 69632};
 #define GEN_NBIGLENS (sizeof(GEN_BIGLENS) / sizeof(GEN_BIGLENS[0]))
 
 static size_t gen_len(rng_t *r, size_t maxlen) {
